@@ -395,6 +395,11 @@ func runC15HelloForms(rep *Report) (forms, bad int) {
 	for _, v := range []string{"0", "1", "4", "-3", "x", "", "3.0", "03", " 3", "9223372036854775808"} {
 		list = append(list, []string{"HELLO", v}, []string{"HELLO", v, "SETNAME", "named"})
 	}
+	defer func() {
+		f2, b2 := runC15HelloInMulti(rep)
+		forms += f2
+		bad += b2
+	}()
 	protoOf := func(cl *redisemu.VClient) int {
 		r, err := vm.Parse1(cl.Do("HGETALL", "kh"))
 		if err != nil {
@@ -485,6 +490,81 @@ func runC15HelloForms(rep *Report) (forms, bad int) {
 						}
 						rep.add(fmt.Sprintf("HELLO-form|%s|from-resp%d|%s", opt, before, kind), msg, map[string]any{"form": form, "protocol_before": before, "name_set_before": named})
 					}
+				}
+			}
+		}
+	}
+	return
+}
+
+// runC15HelloInMulti: a HELLO queued inside a transaction switches the protocol when EXEC runs it: the
+// commands queued after it answer in the new protocol, the connection speaks it afterwards, and a RESP2
+// connection never receives a RESP3 type - whatever was prepared when the commands were queued.
+func runC15HelloInMulti(rep *Report) (forms, bad int) {
+	for _, before := range []int{2, 3} {
+		for _, target := range []string{"2", "3"} {
+			for vi, queue := range [][][]string{
+				{{"HGETALL", "kh"}, {"HELLO", target}, {"HGETALL", "kh"}, {"HINCRBYFLOAT", "kh", "n", "1.5"}, {"SMEMBERS", "kz"}},
+				{{"HELLO", target}, {"HGETALL", "kh"}},
+				{{"HELLO", target}, {"HELLO", map[string]string{"2": "3", "3": "2"}[target]}, {"HGETALL", "kh"}, {"HELLO", target}, {"HGETALL", "kh"}},
+				{{"HELLO", target, "SETNAME", "inmulti"}, {"CLIENT", "GETNAME"}, {"HGETALL", "kh"}},
+			} {
+				forms++
+				redisemu.VResetGlobals()
+				msg := ""
+				done := false
+				sched := verifrt.NewSched(nil)
+				sched.Run(func() {
+					vi := redisemu.VNew("")
+					cl := vi.NewClient()
+					cl.Do("HSET", "kh", "f", "1", "n", "1")
+					cl.Do("SADD", "kz", "m")
+					if before == 3 {
+						cl.Do("HELLO", "3")
+					}
+					cl.Do("MULTI")
+					for _, q := range queue {
+						cl.Do(q...)
+					}
+					raw := cl.Do("EXEC")
+					r, err := vm.Parse1(raw)
+					want := 2
+					if target == "3" {
+						want = 3
+					}
+					after, _ := vm.Parse1(cl.Do("HGETALL", "kh"))
+					switch {
+					case err != nil || r.K != vm.KArray || len(r.A) != len(queue):
+						msg = fmt.Sprintf("EXEC reply %q", clipB(raw))
+					case (after.K == vm.KMap) != (want == 3):
+						msg = fmt.Sprintf("after the transaction the connection does not speak RESP%d (HGETALL answers %s)", want, vm.Shape(after))
+					default:
+						if want == 2 {
+							if ok, why := resp2Only(r); !ok {
+								msg = "the connection is RESP2 after EXEC but the EXEC reply carries a RESP3 type: " + why
+							}
+						} else {
+							// the last HGETALL of the queue comes after the last HELLO 3
+							last := r.A[len(r.A)-1]
+							for qi := len(queue) - 1; qi >= 0; qi-- {
+								if queue[qi][0] == "HGETALL" {
+									last = r.A[qi]
+									break
+								}
+							}
+							if last.K != vm.KMap {
+								msg = fmt.Sprintf("HGETALL queued after HELLO 3 answers %s inside the EXEC reply, not a map", vm.Shape(last))
+							}
+						}
+					}
+					done = true
+				})
+				if !done && msg == "" {
+					msg = fmt.Sprintf("run ended with %s %v", sched.Term, firstLine(fmt.Sprint(sched.PanicVal)))
+				}
+				if msg != "" {
+					bad++
+					rep.add(fmt.Sprintf("HELLO-in-MULTI|from-resp%d|to-resp%s|queue%d", before, target, vi), fmt.Sprintf("RESP%d connection, MULTI %v EXEC: %s", before, queue, msg), map[string]any{"queue": queue, "protocol_before": before})
 				}
 			}
 		}
